@@ -61,6 +61,12 @@ pub enum Op {
     Track { w: usize, reads: Vec<(u8, bool)> },
     /// `obs` without the archetype list (hidden snapshot components make it unobservable)
     TObs { w: usize },
+    /// serialise world `w` through the recording serializer
+    Ser { w: usize, fmt: String, hs: Vec<usize>, q: Option<usize>, cr: bool },
+    /// serialise `from`, optionally mutate the token tree, deserialise into world `w`
+    De { w: usize, from: usize, fmt: String, hs: Vec<usize>, mutseed: Option<u64> },
+    /// serialise `w` to bytes (json/bincode), optionally mutate, deserialise, check, drop
+    DeBytes { w: usize, fmt: String, hs: Vec<usize>, backend: String, mutseed: Option<u64> },
 }
 
 fn show_reads(reads: &[(u8, bool)]) -> String {
@@ -146,6 +152,23 @@ impl Op {
             Op::Cont(c) => c.show(),
             Op::Track { w, reads } => format!("track W{} reads={}", w, show_reads(reads)),
             Op::TObs { w } => format!("tobs W{}", w),
+            Op::Ser { w, fmt, hs, q, cr } => format!("ser W{} fmt={} H={} qk={} cr={}", w, fmt, show_nats(hs), kstr(q), *cr as u8),
+            Op::De { w, from, fmt, hs, mutseed } => format!(
+                "de W{} from=W{} fmt={} H={} mut={}",
+                w,
+                from,
+                fmt,
+                show_nats(hs),
+                mutseed.map_or("-".into(), |m| m.to_string())
+            ),
+            Op::DeBytes { w, fmt, hs, backend, mutseed } => format!(
+                "de_bytes W{} fmt={} H={} backend={} mut={}",
+                w,
+                fmt,
+                show_nats(hs),
+                backend,
+                mutseed.map_or("-".into(), |m| m.to_string())
+            ),
         }
     }
 
@@ -199,6 +222,21 @@ impl Op {
             "drop" => Op::DropWorld { w },
             "track" => Op::Track { w, reads: parse_reads(f("reads")) },
             "tobs" => Op::TObs { w },
+            "ser" => Op::Ser { w, fmt: f("fmt").to_string(), hs: parse_nats(f("H")), q: parse_k(f("qk")), cr: f("cr") == "1" },
+            "de" => Op::De {
+                w,
+                from: f("from")[1..].parse().unwrap(),
+                fmt: f("fmt").to_string(),
+                hs: parse_nats(f("H")),
+                mutseed: if f("mut") == "-" { None } else { Some(f("mut").parse().unwrap()) },
+            },
+            "de_bytes" => Op::DeBytes {
+                w,
+                fmt: f("fmt").to_string(),
+                hs: parse_nats(f("H")),
+                backend: f("backend").to_string(),
+                mutseed: if f("mut") == "-" { None } else { Some(f("mut").parse().unwrap()) },
+            },
             "query" => Op::Query {
                 w,
                 q: f("k").parse().unwrap(),
@@ -530,7 +568,8 @@ impl Ctx {
                 let new = if self.notes.first().map_or(false, |n| n.starts_with("new=")) { self.notes.remove(0) } else { "new=[]".into() };
                 format!("{} d={} {}", res, show_comps(&drops), new)
             }
-            Op::Obs { .. } | Op::NewWorld { .. } | Op::Query { .. } | Op::Track { .. } | Op::TObs { .. } => res,
+            Op::Obs { .. } | Op::NewWorld { .. } | Op::Query { .. } | Op::Track { .. } | Op::TObs { .. } | Op::Ser { .. }
+            | Op::De { .. } | Op::DeBytes { .. } => res,
             _ => {
                 if res == "panic" {
                     res
@@ -770,6 +809,99 @@ impl Ctx {
                 };
                 (l.replacen("obs ", "tobs ", 1), strip(&r))
             }
+            Op::Ser { w, fmt, hs, q, cr } => {
+                let world = self.world(*w);
+                let (tree, honest) = crate::serde_engine::serialize_tree(world, fmt, hs, *cr, *q);
+                (
+                    format!(
+                        "ser W{} fmt={} H={} q={} cr={}",
+                        w,
+                        fmt,
+                        show_nats(hs),
+                        q.map_or("-".to_string(), crate::query_engine::query_desc),
+                        *cr as u8
+                    ),
+                    format!("tree={} honest={}", tree.show(), honest as u8),
+                )
+            }
+            Op::De { w, from, fmt, hs, mutseed } => {
+                let (tree, _) = crate::serde_engine::serialize_tree(self.world(*from), fmt, hs, true, None);
+                let mut mutated = false;
+                let tree = match mutseed {
+                    Some(m) => {
+                        let mut rng = Rng::new(*m);
+                        let t2 = crate::serde_engine::mutate_tree(&tree, &mut rng);
+                        if crate::serde_engine::ids_bounded(&t2) && t2 != tree {
+                            mutated = true;
+                            t2
+                        } else {
+                            tree
+                        }
+                    }
+                    None => tree,
+                };
+                while self.worlds.len() <= *w {
+                    self.worlds.push(None);
+                }
+                let lhs = format!("de W{} fmt={} H={} tree={}", w, fmt, show_nats(hs), tree.show());
+                match crate::serde_engine::deserialize_tree(&tree, fmt, hs) {
+                    Ok(world) => {
+                        self.worlds[*w] = Some(world);
+                        if !mutated {
+                            self.notes.push(format!("roundtrip W{} W{} H={} => ok", from, w, show_nats(hs)));
+                        }
+                        (lhs, "ok".into())
+                    }
+                    Err(_) => (lhs, "err".into()),
+                }
+            }
+            Op::DeBytes { w, fmt, hs, backend, mutseed } => {
+                let before = live();
+                let world = self.world(*w);
+                let bytes = if backend == "json" { crate::serde_engine::to_json(world, fmt, hs) } else { crate::serde_engine::to_bincode(world, fmt, hs) };
+                let (src_tree, _) = crate::serde_engine::serialize_tree(world, fmt, hs, true, None);
+                let mut mutated = false;
+                let bytes = match (mutseed, backend.as_str()) {
+                    (Some(m), "json") => {
+                        let mut rng = Rng::new(*m);
+                        let b2 = crate::serde_engine::mutate_json(&bytes, &mut rng);
+                        if crate::serde_engine::json_ids_bounded(&b2) && b2 != bytes {
+                            mutated = true;
+                            b2
+                        } else {
+                            bytes
+                        }
+                    }
+                    _ => bytes,
+                };
+                let r = if backend == "json" {
+                    crate::serde_engine::from_json(&bytes, fmt, hs)
+                } else {
+                    crate::serde_engine::from_bincode(&bytes, fmt, hs)
+                };
+                let mut out = match r {
+                    Ok(w2) => {
+                        let mut extra = String::new();
+                        if !mutated {
+                            let (t2, _) = crate::serde_engine::serialize_tree(&w2, fmt, hs, true, None);
+                            let same = canon_tree_eq(&t2, &src_tree, fmt);
+                            extra = format!(" same={}", same as u8);
+                        }
+                        // hooked state of the decoded world, then it is dropped
+                        let mut tmp = Ctx::new();
+                        tmp.worlds.push(Some(w2));
+                        if let Some(s) = tmp.state_line(0) {
+                            self.notes.push(s.replacen("#state W0", "#state X", 1));
+                        }
+                        drop(tmp);
+                        format!("ok{}", extra)
+                    }
+                    Err(_) => "err".to_string(),
+                };
+                let _ = take_drops();
+                out.push_str(&format!(" leak={}", live() - before));
+                (format!("de_bytes W{} fmt={} H={} backend={} mutated={}", w, fmt, show_nats(hs), backend, mutated as u8), out)
+            }
             Op::Track { w, reads } => {
                 let mut tracker = self.trackers.remove(w).unwrap_or_else(hecs::ChangeTracker::<TK>::new);
                 let world = self.world(*w);
@@ -891,6 +1023,8 @@ pub enum Profile {
     Containers,
     /// mutations of a tracked component interleaved with `ChangeTracker::track` (C18)
     Tracker,
+    /// world mutations interleaved with (de)serialisation, token- and byte-level mutations (C14, C15)
+    Serde,
 }
 
 impl Gen {
@@ -1234,6 +1368,31 @@ impl Gen {
         if self.profile == Profile::Containers && self.rng.chance(70) {
             return self.cont_op(ctx, w);
         }
+        if self.profile == Profile::Serde && self.rng.chance(30) {
+            let sets: [&[usize]; 4] = [&[0, 1, 2, 3, 5, 7], &[0, 1], &[0, 1, 2, 3, 4, 5, 6, 7, 8, 9], &[1, 4, 8]];
+            let hs = sets[self.rng.below(4)].to_vec();
+            let fmt = if self.rng.chance(50) { "row" } else { "col" }.to_string();
+            let src = if ctx.has_world(1) && self.rng.chance(30) { 1 } else { 0 };
+            return match self.rng.weighted(&[25, 40, 35]) {
+                0 => {
+                    let q = if self.rng.chance(35) { Some(self.rng.below(crate::query_engine::NQUERIES)) } else { None };
+                    Op::Ser { w: src, fmt, hs, q, cr: self.rng.chance(50) }
+                }
+                1 => {
+                    // the decoded world replaces world 1 (dropped first when it exists)
+                    if ctx.has_world(1) {
+                        return Op::DropWorld { w: 1 };
+                    }
+                    let mutseed = if self.rng.chance(65) { Some(self.rng.next() % 1_000_000) } else { None };
+                    Op::De { w: 1, from: 0, fmt, hs, mutseed }
+                }
+                _ => {
+                    let backend = if self.rng.chance(70) { "json" } else { "bincode" }.to_string();
+                    let mutseed = if backend == "json" && self.rng.chance(70) { Some(self.rng.next() % 1_000_000) } else { None };
+                    Op::DeBytes { w: src, fmt, hs, backend, mutseed }
+                }
+            };
+        }
         if self.profile == Profile::Tracker {
             let w = 0;
             match self.rng.weighted(&[22, 30, 14, 12, 8, 6, 4, 4]) {
@@ -1284,6 +1443,7 @@ impl Gen {
             Profile::Query => [14, 2, 3, 3, 1, 10, 8, 4, 8, 2, 1, 2, 1, 2, 1, 60],
             Profile::Containers => [14, 3, 2, 2, 1, 10, 8, 4, 12, 3, 1, 2, 1, 4, 2, 0],
             Profile::Tracker => [1, 0, 0, 0, 0, 0, 0, 0, 0, 0, 0, 0, 0, 0, 0, 0],
+            Profile::Serde => [18, 5, 3, 3, 2, 14, 10, 6, 10, 3, 0, 2, 1, 2, 1, 0],
         };
         match self.rng.weighted(&weights) {
             0 => {
@@ -1439,7 +1599,10 @@ pub fn run_history(
         } else if produced == len {
             // epilogue: observe, then drop every world (ledger check)
             produced += 1;
-            for w in (0..nworlds).rev() {
+            for w in (0..ctx.worlds.len().max(nworlds)).rev() {
+                if !ctx.has_world(w) {
+                    continue;
+                }
                 queue.push((usize::MAX, Op::DropWorld { w }));
                 let tracked = gen.as_ref().map_or(false, |g| g.profile == Profile::Tracker);
                 queue.push((usize::MAX, if tracked { Op::TObs { w } } else { Op::Obs { w } }));
@@ -1473,7 +1636,8 @@ pub fn run_history(
             | Op::ReserveEntity { w } | Op::ReserveEntities { w, .. } | Op::Obs { w } | Op::DropWorld { w }
             | Op::Query { w, .. } => Some(*w),
             Op::Cont(c) => c.world(),
-            Op::Track { w, .. } | Op::TObs { w } => Some(*w),
+            Op::Track { w, .. } | Op::TObs { w } | Op::Ser { w, .. } | Op::DeBytes { w, .. } => Some(*w),
+            Op::De { from, .. } => Some(*from),
         };
         if let Some(w) = w {
             if !ctx.has_world(w) {
@@ -1500,7 +1664,13 @@ pub fn run_history(
                 for n in ctx.notes.drain(..) {
                     out.trace.push(n);
                 }
-                if let (Some(w), false) = (w, matches!(op, Op::Obs { .. } | Op::DropWorld { .. } | Op::Query { .. } | Op::TObs { .. })) {
+                if let (Some(w), false) = (
+                    match &op {
+                        Op::De { w, .. } => Some(*w),
+                        _ => w,
+                    },
+                    matches!(op, Op::Obs { .. } | Op::DropWorld { .. } | Op::Query { .. } | Op::TObs { .. } | Op::Ser { .. } | Op::DeBytes { .. }),
+                ) {
                     if let Some(s) = ctx.state_line(w) {
                         out.trace.push(s);
                     }
@@ -1519,10 +1689,15 @@ pub fn run_history(
                 break;
             }
         }
-        if !scripted && obs_every > 0 && !matches!(op, Op::Obs { .. } | Op::TObs { .. } | Op::DropWorld { .. } | Op::NewWorld { .. } | Op::Query { .. }) {
+        if !scripted && obs_every > 0 && !matches!(op, Op::Obs { .. } | Op::TObs { .. } | Op::DropWorld { .. } | Op::NewWorld { .. } | Op::Query { .. } | Op::Ser { .. } | Op::DeBytes { .. }) {
             since_obs += 1;
             if since_obs >= obs_every {
                 since_obs = 0;
+                let w = match &op {
+                    Op::De { w, .. } if ctx.has_world(*w) => Some(*w),
+                    Op::De { .. } => None,
+                    _ => w,
+                };
                 if let Some(w) = w {
                     let tracked = gen.as_ref().map_or(false, |g| g.profile == Profile::Tracker);
                     queue.push((usize::MAX, if tracked { Op::TObs { w } } else { Op::Obs { w } }));
@@ -1581,4 +1756,62 @@ impl Op {
         }
         out
     }
+}
+
+/// order-insensitive comparison of two serialised forms (storage order is not part of the format's meaning)
+fn canon_tree_eq(a: &crate::serde_engine::Tree, b: &crate::serde_engine::Tree, fmt: &str) -> bool {
+    use crate::serde_engine::Tree;
+    fn canon(t: &Tree, fmt: &str) -> String {
+        match (fmt, t) {
+            ("row", Tree::Map(kvs)) => {
+                let mut v: Vec<String> = kvs
+                    .iter()
+                    .map(|(k, val)| {
+                        let inner = match val {
+                            Tree::Map(cs) => {
+                                let mut c: Vec<String> = cs.iter().map(|(a, b)| format!("{}:{}", a.show(), b.show())).collect();
+                                c.sort();
+                                c.join(",")
+                            }
+                            o => o.show(),
+                        };
+                        format!("{}={}", k.show(), inner)
+                    })
+                    .collect();
+                v.sort();
+                v.join(";")
+            }
+            (_, Tree::Seq(blocks)) => {
+                // per entity: (bits, sorted (id, value))
+                let mut rows: Vec<String> = Vec::new();
+                for b in blocks {
+                    if let Tree::Seq(parts) = b {
+                        if let (Some(Tree::Seq(ids)), Some(Tree::Seq(cols))) = (parts.get(2), parts.get(3)) {
+                            if let Some(Tree::Seq(ents)) = cols.first() {
+                                for (i, e) in ents.iter().enumerate() {
+                                    let mut cs: Vec<String> = ids
+                                        .iter()
+                                        .enumerate()
+                                        .map(|(j, id)| {
+                                            let v = match cols.get(j + 1) {
+                                                Some(Tree::Seq(xs)) => xs.get(i).map_or("?".into(), |x| x.show()),
+                                                _ => "?".into(),
+                                            };
+                                            format!("{}:{}", id.show(), v)
+                                        })
+                                        .collect();
+                                    cs.sort();
+                                    rows.push(format!("{}={}", e.show(), cs.join(",")));
+                                }
+                            }
+                        }
+                    }
+                }
+                rows.sort();
+                rows.join(";")
+            }
+            (_, o) => o.show(),
+        }
+    }
+    canon(a, fmt) == canon(b, fmt)
 }
